@@ -134,7 +134,7 @@ def run(ctx):
     ctx.extra["process_runs"] = runs
     ctx.extra["runs_ending_with_an_error_message"] = failing
     ctx.assumptions += [
-        "files are two base family graphs with sets of structural faults applied (33 fault kinds: references to missing / wrong-kind records, "
+        "files are two base family graphs with sets of structural faults applied (35 fault kinds: references to missing / wrong-kind records, "
         "empty HUSB/WIFE/CHIL, missing / partial names, cyclic links, duplicate pointers, empty families, dates of every validity class, odd "
         "surnames); every file is checked to be accepted by the decoder before the commands run",
         "the commands are executed by the gedcom binary built from /repo/cmd/gedcom: warnings; publish (3 visibility modes, 4 jobs, each page "
@@ -147,7 +147,7 @@ def run(ctx):
                            "in every interleaving (bounded channels, no send on a closed channel, nothing lost or duplicated in flight, page = sorted filter, "
                            "termination under fairness); %d real runs (-show x -sort x Jobs x GOMAXPROCS) are judged by DiffPageTrace: termination and no "
                            "panic are property clauses, the content and order of the page are conformance clauses (drift, not counted)" % dp_total)
-    rule = ("TLC enumerates every set of up to %d of 33 structural faults on 2 base graphs; plus seeded sets of 3-8 faults and the full set; "
+    rule = ("TLC enumerates every set of up to %d of 35 structural faults on 2 base graphs; plus seeded sets of 3-8 faults and the full set; "
             "each file is run through 32 invocations of the real gedcom binary and CommandsTrace judges every process outcome (%d files, %d "
             "process runs)" % (2 if quick else 3, total, runs))
     return common.finish(ctx, rule=rule)
